@@ -103,7 +103,7 @@ theorem step_S (F : Nat → LId → Option VId → Bool) (w : World) (op : Op) (
         · exact hg.2
       obtain ⟨w', e, h1, h2, h3⟩ := C.newLink_S w c [a, b] h hvs
       rw [e]; exact ⟨h1, fun _ => ⟨h2, h3⟩⟩
-  case newEdgeIllTyped => exact ⟨h, fun _ => ⟨trivial, trivial⟩⟩
+  case rejected => exact ⟨h, fun _ => ⟨trivial, trivial⟩⟩
   case newNLink vs =>
     split
     · exact bad
